@@ -16,30 +16,30 @@ import (
 
 // hostFuncs: package-level functions executed natively (arguments must be concrete / host objects).
 var hostFuncs = map[string]interface{}{
-	"regexp.MustCompile":       regexp.MustCompile,
-	"go/types.NewPointer":      types.NewPointer,
-	"go/types.NewMethodSet":    types.NewMethodSet,
-	"go/types.Identical":       types.Identical,
-	"go/types.Unalias":         types.Unalias,
-	"go/types.TypeString":      types.TypeString,
-	"go/types.Implements":      types.Implements,
-	"go/types.AssignableTo":    types.AssignableTo,
-	"go/types.ConvertibleTo":   types.ConvertibleTo,
-	"go/types.IdenticalIgnoreTags": types.IdenticalIgnoreTags,
-	"go/types.IsInterface":     types.IsInterface,
-	"go/types.Comparable":      types.Comparable,
-	"go/types.Satisfies":       types.Satisfies,
-	"go/types.Default":         types.Default,
-	"go/types.MissingMethod":   types.MissingMethod,
-	"go/types.LookupFieldOrMethod": types.LookupFieldOrMethod,
-	"go/types.NewSlice":        types.NewSlice,
-	"go/types.NewArray":        types.NewArray,
-	"go/types.NewMap":          types.NewMap,
-	"go/types.NewChan":         types.NewChan,
-	"go/types.ObjectString":    types.ObjectString,
-	"go/types.SelectionString": types.SelectionString,
-	"go/types.CoreType":        coreTypeCompat,
-	"go/token.NewFileSet":      token.NewFileSet,
+	"regexp.MustCompile":                                 regexp.MustCompile,
+	"go/types.NewPointer":                                types.NewPointer,
+	"go/types.NewMethodSet":                              types.NewMethodSet,
+	"go/types.Identical":                                 types.Identical,
+	"go/types.Unalias":                                   types.Unalias,
+	"go/types.TypeString":                                types.TypeString,
+	"go/types.Implements":                                types.Implements,
+	"go/types.AssignableTo":                              types.AssignableTo,
+	"go/types.ConvertibleTo":                             types.ConvertibleTo,
+	"go/types.IdenticalIgnoreTags":                       types.IdenticalIgnoreTags,
+	"go/types.IsInterface":                               types.IsInterface,
+	"go/types.Comparable":                                types.Comparable,
+	"go/types.Satisfies":                                 types.Satisfies,
+	"go/types.Default":                                   types.Default,
+	"go/types.MissingMethod":                             types.MissingMethod,
+	"go/types.LookupFieldOrMethod":                       types.LookupFieldOrMethod,
+	"go/types.NewSlice":                                  types.NewSlice,
+	"go/types.NewArray":                                  types.NewArray,
+	"go/types.NewMap":                                    types.NewMap,
+	"go/types.NewChan":                                   types.NewChan,
+	"go/types.ObjectString":                              types.ObjectString,
+	"go/types.SelectionString":                           types.SelectionString,
+	"go/types.CoreType":                                  coreTypeCompat,
+	"go/token.NewFileSet":                                token.NewFileSet,
 	"github.com/cloudflare/ahocorasick.NewStringMatcher": ahocorasick.NewStringMatcher,
 }
 
